@@ -156,7 +156,24 @@ def run(chk):
     accs.append({'logits': logits, 'labels': labels, 'threshold': thr, 'partitions': list(compositions(n))})
   W = 8
   payloads = [{'linen_ts': lts[i::W], 'nnx_opt': nops[i::W], 'nnx_ts': ntss[i::W], 'metrics': metrics[i::W], 'accuracy': accs[i::W]} for i in range(W)]
+  rebuilt = [{'tx': tx, 'mode': mode, 'steps': 4, 'w': [[rng.randint(-3, 3) / 2.0 for _ in range(3)] for _ in range(2)], 'b': [rng.randint(-3, 3) / 2.0 for _ in range(3)]}
+             for tx in ('adam', 'rprop', 'chain_rprop', 'momentum') for mode in ('eager', 'jit', 'splitmerge', 'clone')]
+  payloads[0]['nnx_opt_rebuilt'] = rebuilt[0::2]
+  payloads[1 % W]['nnx_opt_rebuilt'] = rebuilt[1::2]
   results = common.run_impl_parallel('impl_c17.py', payloads, workers=W)
+  rres = [None] * len(rebuilt)
+  rres[0::2] = results[0]['nnx_opt_rebuilt']
+  rres[1::2] = results[1 % W]['nnx_opt_rebuilt']
+  for c, o in zip(rebuilt, rres):
+    chk.count({'nnx_opt_rebuilt': {'tx': c['tx'], 'mode': c['mode']}}, c['mode'] != 'eager')
+    if 'err' in o:
+      chk.violation('oracle', 'nnx.Optimizer (%s) stepped in mode %s raised %s' % (c['tx'], c['mode'], o['err']), {'case': c, 'observed': o})
+      continue
+    for i, st in enumerate(o['ok']['steps']):
+      if not (st['params_close'] and st['opt_close'] and st['step'] == i + 1):
+        chk.violation('oracle', 'nnx.Optimizer.update (%s) with the optimizer rebuilt by the graph machinery between steps (%s) differs from tx.update + apply_updates by hand '
+                      '(parameters, optimizer state or step counter) at step %d' % (c['tx'], c['mode'], i + 1), {'case': c, 'observed': o['ok']['steps']})
+        break
   def gather(key, n):
     out = [None] * n
     for k, r in enumerate(results):
